@@ -83,3 +83,48 @@ PROPERTY_META["C14"] = dict(
     explanation="Harness-stated contracts on the real Ord/PartialOrd/PartialEq impls of chess_engine::Score (the derived Ord of ScoreKind is compiled for real), full symbolic domain, loop-free: complete proof for all pairs/triples.",
     assumptions=["spec order (rank,key) written from the property statement is the definition of 'game-theoretic preference' used here"],
 )
+
+# =========================================================================== C16
+host("chess-api", "chess-api/src/lib.rs", "kani_verif_c16", "harness/chess-api/c16.rs")
+_f16 = ["From<ChessMove> for StableChessMove", "From<StableChessMove> for ChessMove", "From<ChessMove> for StableOptionalChessMove",
+        "From<Option<ChessMove>> for StableOptionalChessMove", "From<StableOptionalChessMove> for Option<ChessMove>",
+        "EvaluatedMove::new", "EvaluatedMove::chess_move", "EvaluatedMove::score"]
+ob("C16.move", "C16", "chess-api", "kani_verif_c16::c16_move", kind="complete", flags="safety", timeout=300, functions=_f16[:2],
+   contract="for all 64x64x5 moves m: ChessMove::from(StableChessMove::from(m)) == m")
+ob("C16.opt_move", "C16", "chess-api", "kani_verif_c16::c16_opt_move", kind="complete", flags="safety", timeout=300, functions=_f16[2:7],
+   contract="for all m, s: Some(m) -> Stable -> Some(m); None -> None; EvaluatedMove::new(x, s).chess_move() == x")
+ob("C16.score", "C16", "chess-api", "kani_verif_c16::c16_score", kind="complete", flags="safety", timeout=300, functions=[_f16[5], _f16[7]],
+   contract="for all scores s (5 variants, full u16/i32 payloads) and optional moves: EvaluatedMove::new(mv, s).score() == s")
+ob("C16.cover", "C16", "chess-api", "kani_verif_c16::c16_cover", kind="cover", flags="safety", timeout=300, contract="vacuity guard")
+ob("C16.negtwin", "C16", "chess-api", "kani_verif_c16::c16_negtwin", kind="negtwin", expect="refuted", flags="safety", timeout=300,
+   contract="negated twin of C16.move: must be refuted")
+PROPERTY_META["C16"] = dict(
+    level="proof",
+    explanation="Harness-stated contracts on the real conversion impls of chess-api (abi_stable derives compiled for real), full symbolic domain of moves, optional moves and scores, loop-free: complete proof, strictly stronger than the sampled numeric scores the property mentions.",
+    assumptions=["the abi_stable plugin loading path and NonNull::<F>::dangling().read() in ChessApi::new are outside this property and unverified"],
+)
+
+# =========================================================================== C20
+host("tracing-enabled", "tracing-enabled/src/lib.rs", "kani_verif_c20", "harness/tracing-enabled/c20.rs")
+_f20 = ["tracing_enabled::is_enabled", "local_enable", "local_disable", "local_toggle", "enable", "disable", "toggle", "local_take", "restore"]
+ob("C20.is_enabled", "C20", "tracing-enabled", "kani_verif_c20::c20_is_enabled", kind="complete", flags="safety", timeout=300, functions=_f20[:1],
+   contract="is_enabled() == match L {Global => G, Enabled => true, Disabled => false}; L' == L, G' == G; all 3x2 states")
+ob("C20.local_ops", "C20", "tracing-enabled", "kani_verif_c20::c20_local_ops", kind="complete", flags="safety", timeout=300, functions=_f20[1:4],
+   contract="local_enable/local_disable/local_toggle: L' = Enabled/Disabled/toggled(L) (Global stays Global); G' == G")
+ob("C20.global_ops", "C20", "tracing-enabled", "kani_verif_c20::c20_global_ops", kind="complete", flags="safety", timeout=300, functions=_f20[4:7],
+   contract="enable/disable: L' = Enabled/Disabled and G' = true/false; toggle: L' = toggled(L), G' = !G")
+ob("C20.take_restore", "C20", "tracing-enabled", "kani_verif_c20::c20_take_restore", kind="complete", flags="safety", timeout=300, functions=_f20[7:],
+   contract="local_take: returns L, L' = Global, G' == G; restore(s): L' = s, G' == G; restore(local_take()) after any one intervening operation returns L")
+ob("C20.other_thread", "C20", "tracing-enabled", "kani_verif_c20::c20_other_thread_effects", kind="complete", flags="safety", timeout=300, functions=_f20[:1],
+   contract="after any effect another thread's operations can have (arbitrary G, by their frames), L_A unchanged and is_enabled() == L_A if set else latest G")
+ob("C20.cover", "C20", "tracing-enabled", "kani_verif_c20::c20_cover", kind="cover", flags="safety", timeout=300, contract="vacuity guard")
+ob("C20.negtwin", "C20", "tracing-enabled", "kani_verif_c20::c20_negtwin", kind="negtwin", expect="refuted", flags="safety", timeout=300,
+   contract="negated twin of C20.is_enabled: must be refuted")
+PROPERTY_META["C20"] = dict(
+    level="proof",
+    explanation="Sequential contracts (postcondition + frame over both state components) on all nine real functions, all 3x2 states x all operations, loop-free: complete. The interleaving statement is the lemma 'each operation touches L_own and performs at most one access to the single atomic G' + Rust's thread_local! guarantee that L_A and L_B are distinct objects; Kani has no threads, so real scheduling and Release/Acquire ordering are NOT explored.",
+    assumptions=["thread_local! gives each thread its own LOCAL_ENABLED (language guarantee, trusted)",
+                 "operation-granularity interleavings are complete because each operation accesses the single atomic at most once (checked by reading the 9 function bodies; enable/disable/toggle do a local op then one atomic op)",
+                 "memory ordering (Release/Acquire) effects are outside Kani's sequential model"],
+    level_note="proof of the sequential contracts and frames; thread isolation follows by a stated lemma resting on thread_local! semantics (not machine-checked); no real concurrency explored",
+)
